@@ -123,3 +123,47 @@ contract(
     modifies=RMOD + ["Element.id_link", "Element.refuri", "self.g_link"],
     properties=["C09"],
 )
+
+
+# ---------------------------------------------------------------------------------------------------------------
+# `(name)=` block targets: what carries the explicit target that '#name' links resolve to
+import contracts.registry  # noqa: F401,E402
+
+
+@spec(abstract=True, sig=(["str"], "str"))
+def FullyNormalizeName(s):
+    """docutils.nodes.fully_normalize_name: case-folded, whitespace-normalised reference name."""
+    from docutils import nodes
+
+    return nodes.fully_normalize_name(s)
+
+
+contract(
+    "ext:docutils.nodes.fully_normalize_name",
+    types={"__params__": ["name"], "name": "str"},
+    requires=[], ensures=["result == FullyNormalizeName(name)"], returns="str", modifies=[], pure=True, trusted=True,
+)
+contract(
+    "ext:docutils.nodes.target",
+    types={"__params__": ["rawsource"], "rawsource": "str"},
+    requires=[], ensures=["result.kind == 'target'", "len(result.children) == 0", "result.parent is None", "result.line is None",
+                          "len(result.names) == 0", "not result.id_link", "result.refuri is None"],
+    returns="Element", modifies=["fresh1"], trusted=True,
+)
+contract(
+    f"{M}:DocutilsRenderer.render_myst_target",
+    requires=REQ,
+    ensures=KEEP + [
+        # exactly one target node, at the target's own line, named by the normalised text and registered under that name
+        "len(self.current_node.children) == len(old(self.current_node.children)) + 1",
+        f"{NEW}.kind == 'target' and {NEW}.parent == self.current_node and fresh({NEW})",
+        f"{NEW}.names == [FullyNormalizeName(token.content)]",
+        "FullyNormalizeName(token.content) in self.document.nameids",
+        "self.document.nameids[: len(old(self.document.nameids))] == old(self.document.nameids)",
+        f"implies(token.map is not None and len(token.map) > 0, {NEW}.line == token.map[0])",
+    ],
+    types={"token": "SyntaxTreeNode"},
+    raises={},
+    modifies=RMOD + ["Element.names", "Document.nameids", "Element.id_link", "Element.refuri"],
+    properties=["C09"],
+)
